@@ -95,7 +95,7 @@ def run(rep, work, rng, tier):
         elif load and load[0] and load[0][0] != 'ok':
             verdict = 'reload-failed:' + load[0][0]
         elif len(snaps) >= 2:
-            d = c01.diff_obs(c01.obs(s0), c01.obs(harness.Snap(snaps[1])))
+            d = c01.diff_obs(c01.obs(s0), c01.obs(harness.Snap(snaps[1]), loaded=True))
             verdict = 'same' if not d else 'differs:' + d[0].split(' ')[0]
         else: verdict = 'no-result:' + cs
         table['%s=%s' % (L, v)] = verdict
